@@ -150,7 +150,7 @@ func checkWrkchainFees(ctx sdk.Context, tx sdk.FeeTx, wck WrkchainKeeper) error 
 			m := msg.(*types.MsgPurchaseWrkChainStateStorage)
 			numSlots := m.Number
 			feePerSlot := wck.GetPurchaseStorageFeeAsCoin(ctx)
-			totalForSlotsAmt := feePerSlot.Amount.Mul(sdk.NewInt(int64(numSlots)))
+			totalForSlotsAmt := feePerSlot.Amount.Mul(sdk.NewIntFromUint64(numSlots))
 			totalForSlotsCoin := sdk.NewCoin(feePerSlot.Denom, totalForSlotsAmt)
 			expectedFees = expectedFees.Add(totalForSlotsCoin)
 			numMsgs = numMsgs + 1
@@ -158,12 +158,15 @@ func checkWrkchainFees(ctx sdk.Context, tx sdk.FeeTx, wck WrkchainKeeper) error 
 	}
 
 	totalFees := sdk.Coins{expectedFees}
-	if tx.GetFee().IsAllLT(totalFees) {
+	// compare the amount offered in the fee denomination itself: IsAllLT/IsAllGT are defeated by
+	// additional denominations in the fee
+	sentFee := tx.GetFee().AmountOf(expectedFeeDenom)
+	if sentFee.LT(expectedFees.Amount) {
 		errMsg := fmt.Sprintf("insufficient fee to pay for WrkChain tx. numMsgs in tx: %v, expected fees: %v, sent fees: %v", numMsgs, totalFees.String(), tx.GetFee())
 		return sdkerrors.Wrap(exported.ErrInsufficientWrkChainFee, errMsg)
 	}
 
-	if tx.GetFee().IsAllGT(totalFees) {
+	if sentFee.GT(expectedFees.Amount) {
 		errMsg := fmt.Sprintf("too much fee sent to pay for WrkChain tx. numMsgs in tx: %v, expected fees: %v, sent fees: %v", numMsgs, totalFees.String(), tx.GetFee())
 		return sdkerrors.Wrap(exported.ErrTooMuchWrkChainFee, errMsg)
 	}
